@@ -41,7 +41,7 @@ Print Assumptions C02_startup_restore.
 
 Example C02_nontrivial :
   let m := log_store ∅ [mkE 1 1 5 9000; mkE 2 1 0 102; mkE 3 1 1 0; mkE 4 2 4 0; mkE 5 2 0 205] in
-  let s := mkNS 2 0 None m 0 0 [] 0 2 0 1 5 2 0 0 [] 0 [] 0 0 0 false [7] in
+  let s := mkNS 2 0 None m 0 0 [] 0 2 0 1 5 2 0 0 [] 0 [] 0 0 0 false [7] (0, 0) in
   match process_logs s 5 with
   | Some (s', tr) => v_applied s' = 5 /\ v_fsm s' = [7; 102; 205] /\
                      tr = [EApply (mkE 2 1 0 102); EApply (mkE 5 2 0 205)]
